@@ -167,14 +167,15 @@ pub fn observe(v: u64) {
     }
 }
 
-/// Current (step, virtual time) for stamping log entries; (0,0) outside an execution.
-pub fn stamp() -> (u64, u64) {
+/// Current (step, virtual time, running task) for stamping log entries; (0,0,MAX) outside an
+/// execution; task is u32::MAX outside any task (scene setup).
+pub fn stamp() -> (u64, u64, u32) {
     CUR.with(|c| match c.borrow().as_ref() {
         Some(i) => {
             let st = i.st.borrow();
-            (st.step, st.now)
+            (st.step, st.now, st.current.unwrap_or(u32::MAX))
         }
-        None => (0, 0),
+        None => (0, 0, u32::MAX),
     })
 }
 
